@@ -5,7 +5,8 @@ NOTE = {
     "C01": "MC_Routing bounded model + every handler of the compiled corpus encoded with two value tuples; JSON shape, round trip, "
            "parse of the specification's document, and each part's accept set judged by TLC on Encode/WrapperDecode events",
     "C02": "every well-formed document of every part delivered through the generated entry point functions and the multitest "
-           "Contract impl; Handler/Return events (which handler, arguments by name, context, outcome, storage) judged by TLC",
+           "Contract impl; Handler/Return events (which handler, arguments by name, context, outcome, storage) judged by TLC; "
+           "liveness of the machine (`Answered`: every delivered document is answered) checked under fairness on a small instance",
     "C03": "every well-formed document of every part plus malformed derivatives (unknown/near-miss names, {}, two keys, duplicate key, "
            "non-objects, missing/ill-typed/extra members, non-object body) decoded by the contract-level message and by each part; "
            "relation judged by TLC on WrapperDecode events",
@@ -15,4 +16,8 @@ NOTE = {
 
 
 def run(prop, tier, seed, replay):
+    if prop == "C02":
+        # liveness of the routing machine (design level): every delivered document is answered -- FairSpec, no constraint
+        from ..common import tlc_model
+        tlc_model("MC_Routing", "MC_Routing_live.cfg", workers=8, timeout=1200, coverage=False)
     return routing.run_property(prop, tier, seed, NOTE[prop])
